@@ -160,7 +160,12 @@ def s2_tables(ctx):
             # (an exception of an unread call passed on by a bare `raise` is not one of the entry's refusals: its type is whatever that call raised)
             wrong = [p for p in ps if p.outcome == 'raise' and p.state.exc[0] == 'raise' and p.state.exc[1] != exp and not (len(p.state.exc) > 5 and p.state.exc[5] in ('table-miss', 'lookup-miss'))]
             inst = '%s: %s is refused with %s' % (qn, name, exp)
-            if bad:
+            if bad and v.unknown and any(p_.outcome == 'raise' and p_.state.exc[0] == 'raise' and p_.state.exc[1] == exp for p_ in ps) and \
+                    any(fmt(c_) in set(v.unknown) for c_, _, _ in bad[0].conds):
+                # the documented refusal is there; the accepting path is reached only through a test this table does not decide (the arguments are matched to their
+                # names by a wrapper, say): whether it applies to the invalid request at hand is not established
+                ctx.undecided('C15.S2', inst, fn.site(), 'refused or accepted depending on %s' % ', '.join(sorted(set(v.unknown))[:3]))
+            elif bad:
                 ctx.violation('C15.S2', inst, fn.site(), 'silent acceptance on path [%s]%s' % (
                     cond_str(bad[0]), (' (the guard also depends on: %s)' % ', '.join(sorted(set(v.unknown))[:4])) if v.unknown else ''),
                     key='C15.S2|%s|%s|accept' % (qn, name))
